@@ -189,12 +189,12 @@ WEAK_KNOWN = {}
 
 def weak_programs(q):
     """(driver, oracle kind of spec/trace/WeakSafe.tla, programs) of the weak-memory executions of the real code"""
-    recl = ['hp3', 'he3', 'ebr0', 'nebr0', 'debra0', 'qsbr', 'lfrc', 'hpd1', 'hed1'] + ([] if q else ['hp1', 'he1', 'ebr1', 'lfrc2'])
+    recl = ['hp3', 'he3', 'ebr0', 'nebr0', 'debra0', 'qsbr', 'lfrc', 'stamp', 'hpd1', 'hed1'] + ([] if q else ['hp1', 'he1', 'ebr1', 'lfrc2'])
     rp = ['acq0:0,tch0,rst0;swp0:0,swp0:0', 'acq0:0,tch0,cpy0:1,rst0,tch1;swp0:0,swp0:0', 'swp0:0,acq1:1;acqe0:0,tch0,swp1:1']
     from props import reclaim_common as RC
     out = [('reclaim', 'reclaim', ['%s;;%s' % (c, p) for c in recl for p in rp if RC.guards_needed(';' + p) <= RC.SLOTTED.get(c, 99)] +
-            ['%s;%s' % (c, RC.DIRECTED[0]) for c in ('hp3', 'he3', 'ebr0', 'nebr0', 'qsbr')])]
-    qr = ['hp3', 'he3', 'ebr0', 'qsbr'] if q else ['hp3', 'he3', 'ebr0', 'nebr0', 'debra0', 'qsbr', 'lfrc']
+            ['%s;%s' % (c, RC.DIRECTED[0]) for c in ('hp3', 'he3', 'ebr0', 'nebr0', 'qsbr', 'stamp')])]
+    qr = ['hp3', 'he3', 'ebr0', 'stamp', 'qsbr'] if q else ['hp3', 'he3', 'ebr0', 'stamp', 'nebr0', 'debra0', 'qsbr', 'lfrc']
     out.append(('queue_ms', 'queue', ['ms/%s/I;push1;push2,pop;pop,push3' % r for r in qr] + ['ms/%s/I;;push1,push2;pop,pop' % r for r in qr]))
     out.append(('queue_ram', 'queue', ['ram10/%s/I;;push1,push2;pop,pop' % r for r in qr] + ['ram21/%s/P;push1;push2,push3;pop,pop' % r for r in qr[:2]]))
     out.append(('queue_nik', 'queue', ['nik10/%s/I;push1;push2,pop;pop,push3' % r for r in qr[:3]]))
